@@ -331,7 +331,7 @@ def gen_scenario(rng, sid, observer, policy):
 
     steps = [[w(r) for r in MODFILES]]
     present = {r: steps[0][i]['version'] for i, r in enumerate(MODFILES)}
-    nsteps = rng.randint(2, 4)
+    nsteps = rng.randint(2, 3)
     for _ in range(nsteps):
         r = rng.random()
         ops = []
@@ -476,16 +476,16 @@ def run(ctx):
 def _run(ctx):
     from props.c08 import pmap
     rng = ctx.subrng('scenarios')
-    n = ctx.size(9, 300)
+    n = ctx.size(7, 300)
     scs = []
     for i in range(n):
-        observer = 'same' if i % 2 == 0 else 'warm'
+        observer = 'warm' if i % 3 == 1 else 'same'
         policy = ['fresh', 'fresh', 'fresh', 'same', 'between', 'keep'][i % 6] if i >= 2 else 'fresh'
         scs.append(gen_scenario(rng, 's%d-%d' % (ctx.seed, i), observer, policy))
     # deterministic witnesses of Props/C09 (the known findings print every run)
     scs += witness_scenarios(ctx.seed)
     t0 = time.time()
-    results = [r[0] for r in pmap('run_scenario', [[s] for s in scs], jobs=12, module='props.c09')]
+    results = [r[0] for r in pmap('run_scenario', [[s] for s in scs], jobs=14, module='props.c09')]
     common.log('[c09] scenarios: %.1fs' % (time.time() - t0))
     reqs, loadlists, curids = [], [], []
     for sc, res in zip(scs, results):
